@@ -21,9 +21,10 @@ META = {
             "and a non-failed best-chain tip hold initially and are preserved by EVERY operation of both trees (hdr/body/set/inv/"
             "reval/rm/rmpl), lifted over op lists; hence the best chain runs through non-failed blocks only. Inv_tree = Inv_flags "
             "+ S3 (a removed block is at VALID_UNKNOWN without ACTIVE/HAS_PAYLOADS and has only removed children) + the tips "
-            "conjunct (tips = usable blocks without usable child) is preserved by EVERY operation of both trees (no _partial). "
-            "Not proved in the model: ACTIVE <=> on the best chain / appliedBlockCount = |chain| / connected => ancestors "
-            "connected (invariants C1, C2, V2 of the checker decide them on the implementation). The full "
+            "conjunct (tips = usable blocks without usable child) + level(block) <= level(parent) (connected => ancestors "
+            "connected) is ONE invariant Inv_all preserved by EVERY operation of both trees (no _partial). Not proved in the model: "
+            "ACTIVE <=> on the best chain and appliedBlockCount = |chain| (they need the unapply/apply loops of PopStateMachine::"
+            "setState related to the parent paths of both tips; invariants C1, C2 of the checker decide them on the implementation). The full "
             "invariant list of harness/invariants.hpp (S1-S3 V1-V3 F1 T1 C1 C2 P1 P2 R1; ALT, VBK and BTC trees) is evaluated on the "
             "implementation after EVERY step of general honest histories with payloads and mempool activity and of the ALT/PoW model histories, which are "
             "also compared with the model per step",
